@@ -31,6 +31,7 @@ func c18Gen(r *rand.Rand, tier string) []spec.Case {
 			c.Steps = []string{"h2p", "p2h"}
 		}
 		c.KeepConns = i%2 == 1
+		c.KillRacesAccepts = c.Proto == "grpc" && i%3 == 1
 		out = append(out, spec.Case{Kind: c.Proto, P: spec.MustJSON(c)})
 		i++
 	}
@@ -61,7 +62,7 @@ func c18Judge(c spec.Case, evs []spec.Event, d *Death) CaseResult {
 			ks = append(ks, k)
 		}
 	}
-	res.Class = fmt.Sprintf("%s|tls=%s|%s|%s|keep=%v", p.Proto, p.TLS, p.Launch, strings.Join(ks, "+"), p.KeepConns)
+	res.Class = fmt.Sprintf("%s|tls=%s|%s|%s|keep=%v|storm=%v", p.Proto, p.TLS, p.Launch, strings.Join(ks, "+"), p.KeepConns, p.KillRacesAccepts)
 	res.Sample = map[string]any{"case": p, "marker": o.Marker, "plugin_dir_left": o.PluginDirLeft, "host_dir_left": o.HostDirLeft, "goroutines_before": o.GoBefore, "goroutines_after": o.GoAfter, "wait_ms": o.GoWaitMs, "step_errs": o.StepErrs}
 	viol := func(key, msg string) {
 		res.Verdict = "violated"
@@ -90,6 +91,9 @@ func c18Judge(c spec.Case, evs []spec.Event, d *Death) CaseResult {
 			viol("host-side-left", fmt.Sprintf("after Kill the host-side temp dir still holds %v", o.HostDirLeft))
 			break
 		}
+	}
+	if len(o.HostTmpLeft) > 0 {
+		viol("host-side-socket-left", fmt.Sprintf("after Kill, %d brokered-listener socket files created by the host side during the case remain in its temp dir: %v", len(o.HostTmpLeft), o.HostTmpLeft))
 	}
 	if o.GoAfter > o.GoBefore {
 		viol("goroutines-left", fmt.Sprintf("%d goroutines with go-plugin frames before the case, %d still %d ms after Kill, e.g.\n%s", o.GoBefore, o.GoAfter, o.GoWaitMs, o.GoSample))
